@@ -549,3 +549,6 @@ H("C06", "vk_codec", "c18_direntry_roundtrip_fat16", desc="same on FAT16", bound
 for n, t in [("c11_read_fault_fat", "thorough"), ("c11_read_fault_second_block", "quick"), ("c11_read_fault_first_block", "thorough")]:
     H("C11", "vk_fsop", n, tier=t, desc="VolumeManager::read across a cluster boundary with one failing, scribbling device call (data block / FAT sector / second data block): DeviceError reported; handle still usable; after seeking back the retried read returns the file's bytes", bounds="file contents fully symbolic; chain 3->5->2, offset 510, 4 bytes; fault index concrete per instance", unwindset=UW_FILE, timeout=1200, cost=3, mem_gb=24)
 PROPS["C11"]["bounds"] += "; VolumeManager::read across a cluster boundary with the fault on the data block / the FAT sector / the second data block, then seek back and retry"
+
+for n in ["c07_full_table_refused_create", "c07_full_table_refused_truncate"]:
+    H("C07", "vk_vm", n, desc="open_file_in_dir with the open-file table full (create / truncate mode): TooManyOpenFiles before anything is read, written or changed", bounds="one volume, one directory, two open files; handle values symbolic", unwindset=UW_OPEN6, timeout=1200, cost=2, mem_gb=20)
